@@ -81,7 +81,7 @@ Response(raw, anyStatus) ==
               vlen == IF hasSp THEN (CHOOSE i \in 1..Len(rest) : rest[i] = 32 /\ \A j \in 1..(i - 1) : rest[j] # 32) - 1 ELSE Len(rest)
               after == IF hasSp THEN SubSeq(rest, vlen + 2, Len(rest)) ELSE <<>>
               sc == ScanInt(after)
-              status == IF sc.ok THEN sc.v ELSE anyStatus
+              status == IF sc.ok THEN sc.v ELSE -22      \* no status: -EINVAL (anyStatus is unused since the code initialises it)
           IN IF q = <<>> THEN /\ timer' = FALSE /\ sent' = <<>> /\ meas' = <<>> /\ UNCHANGED <<q, st, prev, powered, term>>
              ELSE LET h == q[1] IN
                   IF ~StrNEq(buf, h.cmd, 4, vlen) \/ (status # 0 /\ h.critical)
